@@ -313,7 +313,7 @@ def directed_constraint(draw, mm, v):
         return dict(kind='conn', neg=neg, cn=[op, max(0, min(9, cnt + off))] if draw(st.integers(0, 3)) else None, atom=at, bond=bk)
     if kind == 'ringsize':
         sizes = [len(r) for r in mm.rings if v in r]
-        size = (sizes[0] if sizes else draw(st.integers(3, 7))) + off
+        size = (draw(st.sampled_from(sizes)) if sizes else draw(st.integers(3, 7))) + off
         return dict(kind='ringsize', neg=neg, cn=[draw(st.sampled_from([None] + CMPS)), max(3, min(9, size))])
     if kind == 'nring':
         k = sum(1 for r in mm.rings if v in r)
